@@ -1,6 +1,7 @@
 """C01 — decimal string->float correctly rounded: tables, limits, pipeline shape (DESIGN §4)."""
 from rules import tbl_parse_float as T
 from rules import pipeline as P
+from rules import extra as X
 from rules.core import guarded
 
 INFO = {
@@ -27,3 +28,4 @@ def run(col, configs, tier):
             guarded(col, P.rule_error_units, facts)
         guarded(col, P.rule_same_base, facts)
         guarded(col, P.rule_zero_shortcircuit, facts)
+        guarded(col, X.rule_sticky_scans, facts)
